@@ -218,6 +218,9 @@ package js
 //@   ensures[F,C06] @regexp-kind: result0 == RegExpToken || (result0 == ErrorToken && result1 == nil)
 //@   ensures[F,C06] @regexp-rewind: result0 == RegExpToken ==> len(result1) >= 2 && result1[0] == '/' && sameMem(result1, l.r.buf[l.r.pos - len(result1):l.r.pos]) &&
 //@        (l.r.pos - len(result1) == old(l.r.pos) - 1 || (l.r.pos - len(result1) == old(l.r.pos) - 2 && old(l.r.buf[l.r.pos-1]) == '='))
+// after a '/' or a '/=' token (wherever in the input, including its very start) the scan restarts at that '/'
+//@   ensures[F,C06] @regexp-restart-div: old(l.r.pos) >= 1 && old(l.r.buf[l.r.pos-1]) == '/' ==> l.r.start == old(l.r.pos) - 1 || result0 == RegExpToken
+//@   ensures[F,C06] @regexp-restart-diveq: old(l.r.pos) >= 2 && old(l.r.buf[l.r.pos-1]) == '=' && old(l.r.buf[l.r.pos-2]) == '/' ==> l.r.start == old(l.r.pos) - 2 || result0 == RegExpToken
 //@   ensures[F,C06] @regexp-end: result0 == RegExpToken ==> exists(e, 1, len(result1), reEnd(result1, 1, e) && forall(j, 1, e, !reEnd(result1, 1, j)))
 
 // spelled10(r, t): r and t are the same byte string of at most ten bytes (quantifier-free: the longest keyword has ten)
@@ -227,6 +230,10 @@ package js
 //@ pred punct1(tt) := tt == OpenBraceToken || tt == CloseBraceToken || tt == OpenParenToken || tt == CloseParenToken || tt == OpenBracketToken || tt == CloseBracketToken || tt == DotToken || tt == SemicolonToken || tt == CommaToken || tt == QuestionToken || tt == ColonToken
 //@ pred punctByte(tt) := ite(tt == OpenBraceToken, '{', ite(tt == CloseBraceToken, '}', ite(tt == OpenParenToken, '(', ite(tt == CloseParenToken, ')', ite(tt == OpenBracketToken, '[', ite(tt == CloseBracketToken, ']', ite(tt == DotToken, '.', ite(tt == SemicolonToken, ';', ite(tt == CommaToken, ',', ite(tt == QuestionToken, '?', ':'))))))))))
 //@ func Lexer.Next
+// the "a line terminator came before this token" flag (it decides whether '-->' starts a comment): white space of any kind
+// leaves it as it was, a line terminator sets it
+//@   ensures[F,C06,local] @lt-flag-ws: result0 == WhitespaceToken ==> l.prevLineTerminator == old(l.prevLineTerminator)
+//@   ensures[F,C06,local] @lt-flag-lt: result0 == LineTerminatorToken ==> l.prevLineTerminator
 //@   preserves[S] jlInv(l) && l.r.pos >= old(l.r.pos) && l.r.start >= old(l.r.start)
 //@   ensures[S,C01] @progress: l.r.pos + l.r.start > old(l.r.pos + l.r.start) || (result0 == ErrorToken && result1 == nil && l.r.pos == len(l.r.buf)-1)
 //@   ensures[S,C01] @sticky: old(l.r.pos) == len(l.r.buf)-1 ==> result0 == ErrorToken && result1 == nil && l.r.pos == old(l.r.pos)
